@@ -1,6 +1,6 @@
 (* SchedOrder.v — one pass of the event loops: firing order, nothing lost, progress despite
    raising tasks, termination within the supplied fuel. *)
-From Bac Require Import Base Deferred DeferredFacts Sched SchedFacts SchedThms.
+From Bac Require Import Base Deferred DeferredFacts Sched SchedFacts SchedThms SchedPassive.
 From Coq Require Import Permutation Sorted ZifyBool ZifyN ZifyNat.
 Ltac Zify.zify_post_hook ::= Z.to_euclidean_division_equations.
 Open Scope Z_scope.
@@ -14,37 +14,19 @@ Proof.
     + apply Forall_app. split; [exact Hx|]. constructor; [|constructor]. apply Hk. left. reflexivity.
 Qed.
 
-(* under the invariant the fresh entry of a recurring task is added to exactly the rest *)
-Lemma fire_heap_inv : forall jit c s e s1 z s2 ev r, Inv s -> get_next_task s = (Some e, s1, z) ->
-  process_task jit c s1 e = (s2, ev, r) ->
-  exists rest, heap s = e :: rest /\ e_when e <= now s /\ ev = [fire_of s e] /\ now s2 = now s /\ Inv s2 /\
-    (heap s2 = rest \/
-     exists iv off, t_kind (cfg_get c (e_tid e)) = Recurring iv off /\ 0 < iv /\ r = false /\
-       Permutation (heap s2) ((next_slot jit iv off (now s), ctr s, e_tid e) :: rest)).
-Proof.
-  intros jit c s e s1 z s2 ev r Hi G P.
-  destruct (fire_heap _ _ _ _ _ _ _ _ _ G P) as [rest [Hh [Hd [Hev [Hn Hc]]]]].
-  exists rest. repeat (split; [assumption|]). split; [eapply fire_inv; eassumption|].
-  destruct Hc as [[Hr _]|[iv [off [h1 [K [Hiv [Hr [Hh1 [Hp _]]]]]]]]]; [left; exact Hr|].
-  right. exists iv, off. repeat (split; [assumption|]).
-  destruct Hh1 as [->|[e' [He' Hp']]]; [exact Hp|].
-  exfalso. destruct (get_next_inv _ _ _ _ Hi G) as [_ Hni].
-  destruct (get_next_some _ _ _ _ G) as [rest' [Hh' [_ [-> _]]]]. cbn [heap] in Hni.
-  rewrite Hh in Hh'. inversion Hh'; subst rest'. apply Hni. rewrite <- He'.
-  apply (Permutation_in _ (Permutation_sym (Permutation_map e_tid Hp'))). left. reflexivity.
-Qed.
-
 (* ---------- T5: within one pass tasks fire in strictly increasing (due time, counter) order ---------- *)
 Definition Ord (T : Z) (s : st) (acc : list event) : Prop :=
   Inv s /\ now s = T /\ sorted (fired acc) /\
   forall k, In k (fired acc) -> e_when k <= T /\ forall x, In x (heap s) -> elt k x.
 
-Lemma Ord_fire : forall T jit c, 0 <= jit -> forall s acc e s1 z s2 ev r, Ord T s acc ->
-  get_next_task s = (Some e, s1, z) -> process_task jit c s1 e = (s2, ev, r) -> Ord T s2 (acc ++ ev).
+Lemma Ord_fire : forall T jit c, passive_cfg c -> 0 <= jit -> forall s acc e s1 z s2 ev r, Ord T s acc -> passive_dq s ->
+  get_next_task s = (Some e, s1, z) -> process_task jit c s1 e = (s2, ev, r) ->
+  Ord T s2 (acc ++ pop_events s e s1 ++ ev) /\ passive_dq s2.
 Proof.
-  intros T jit c Hj s acc e s1 z s2 ev r [Hi [HT [Hs Hk]]] G P.
-  destruct (fire_heap_inv _ _ _ _ _ _ _ _ _ Hi G P) as [rest [Hh [Hd [-> [Hn [Hi2 Hc]]]]]].
-  unfold Ord. rewrite fired_app, fired_fire.
+  intros T jit c Hc Hj s acc e s1 z s2 ev r [Hi [HT [Hs Hk]]] Hp G P.
+  destruct (fire_heap_inv _ _ _ _ _ _ _ _ _ Hc Hi Hp G P) as [rest [Hh [Hd [Hn [Hi2 [Hp2 [Hfd Hcs]]]]]]].
+  split; [|exact Hp2].
+  unfold Ord. rewrite fired_app, Hfd.
   assert (Hrest : Forall (elt e) rest).
   { destruct Hi as [[Hso _ _ _] _]. rewrite Hh in Hso. inversion Hso; assumption. }
   rewrite Forall_forall in Hrest.
@@ -53,11 +35,11 @@ Proof.
   - intros k Hin. apply in_app_or in Hin.
     assert (Hkw : e_when k <= T).
     { destruct Hin as [Hin|[<-|[]]]; [apply (Hk k Hin) | lia]. }
-    split; [exact Hkw|]. intros x Hx.
+    split; [exact Hkw|]. intros x Hxin.
     assert (Hxr : In x rest -> elt k x).
     { intros Hr. destruct Hin as [Hin|[<-|[]]]; [apply (Hk k Hin); rewrite Hh; right; exact Hr | apply Hrest, Hr]. }
-    destruct Hc as [Hr|[iv [off [_ [Hiv [_ Hp]]]]]]; [rewrite Hr in Hx; apply Hxr, Hx|].
-    apply (Permutation_in _ Hp) in Hx. destruct Hx as [<-|Hx]; [|apply Hxr, Hx].
+    destruct Hcs as [[Hr _]|[iv [off [_ [Hiv [_ [_ Hperm]]]]]]]; [rewrite Hr in Hxin; apply Hxr, Hxin|].
+    apply (Permutation_in _ Hperm) in Hxin. destruct Hxin as [<-|Hxin]; [|apply Hxr, Hxin].
     unfold elt. apply e_lt_spec. left. cbn [e_when fst].
     pose proof (next_slot_after jit iv off (now s) Hiv Hj). lia.
 Qed.
@@ -71,23 +53,23 @@ Proof. intros T s acc ev Ho Hn. unfold Ord. rewrite fired_app, (fired_noise _ Hn
 Lemma Ord_init : forall s, Inv s -> Ord (now s) s [].
 Proof. intros s Hi. split; [exact Hi|]. split; [reflexivity|]. split; [constructor | intros k []]. Qed.
 
-Lemma run_once_ordered : forall guard jit c s s' ev, 0 <= jit -> Inv s ->
+Lemma run_once_ordered : forall guard jit c s s' ev, passive_cfg c -> passive_dq s -> 0 <= jit -> Inv s ->
   run_once guard jit c s = (s', ev) ->
   sorted (fired ev) /\ forall k, In k (fired ev) -> e_when k <= now s.
 Proof.
-  intros guard jit c s s' ev Hj Hi H.
-  pose proof (run_once_loop_I (Ord (now s)) guard jit c (Ord_fire _ jit c Hj) (Ord_dq _) (Ord_noise _)
-                _ s [] s' ev (Ord_init s Hi) H) as [_ [_ [Hs Hk]]].
+  intros guard jit c s s' ev Hc Hp Hj Hi H.
+  destruct (run_once_loop_P (Ord (now s)) jit c (Ord_fire _ jit c Hc Hj) (Ord_dq _) (Ord_noise _)
+              guard _ s [] s' ev (Ord_init s Hi) Hp H) as [[_ [_ [Hs Hk]]] _].
   split; [exact Hs | intros k Hin; apply (Hk k Hin)].
 Qed.
 
-Lemma run_ordered : forall guard jit c s s' ev, 0 <= jit -> Inv s ->
+Lemma run_ordered : forall guard jit c s s' ev, passive_cfg c -> passive_dq s -> 0 <= jit -> Inv s ->
   run guard jit c s = (s', ev) ->
   sorted (fired ev) /\ forall k, In k (fired ev) -> e_when k <= now s.
 Proof.
-  intros guard jit c s s' ev Hj Hi H.
-  pose proof (run_loop_I (Ord (now s)) guard jit c (Ord_fire _ jit c Hj) (Ord_dq _) (Ord_noise _)
-                _ s [] s' ev (Ord_init s Hi) H) as [_ [_ [Hs Hk]]].
+  intros guard jit c s s' ev Hc Hp Hj Hi H.
+  destruct (run_loop_P (Ord (now s)) jit c (Ord_fire _ jit c Hc Hj) (Ord_dq _) (Ord_noise _)
+              guard _ s [] s' ev (Ord_init s Hi) Hp H) as [[_ [_ [Hs Hk]]] _].
   split; [exact Hs | intros k Hin; apply (Hk k Hin)].
 Qed.
 
@@ -104,27 +86,49 @@ Qed.
 Definition Keep (H0 : list entry) (s : st) (acc : list event) : Prop :=
   Inv s /\ forall x, In x H0 -> In x (heap s) \/ In x (fired acc).
 
-Lemma run_once_conserves : forall guard jit c s s' ev, Inv s -> run_once guard jit c s = (s', ev) ->
-  forall x, In x (heap s) -> In x (heap s') \/ In x (fired ev).
+Lemma Keep_fire : forall H0 jit c, passive_cfg c -> forall s acc e s1 z s2 ev r, Keep H0 s acc -> passive_dq s ->
+  get_next_task s = (Some e, s1, z) -> process_task jit c s1 e = (s2, ev, r) ->
+  Keep H0 s2 (acc ++ pop_events s e s1 ++ ev) /\ passive_dq s2.
 Proof.
-  intros guard jit c s s' ev Hi H.
-  refine (proj2 (run_once_loop_I (Keep (heap s)) guard jit c _ _ _ _ s [] s' ev _ H)).
-  - intros s0 acc e s1 z s2 ev0 r [Hi0 Hk] G P.
-    destruct (fire_heap_inv _ _ _ _ _ _ _ _ _ Hi0 G P) as [rest [Hh [_ [-> [_ [Hi2 Hc]]]]]].
-    split; [exact Hi2|]. intros x Hx. rewrite fired_app, fired_fire.
-    destruct (Hk x Hx) as [Hin|Hin]; [|right; apply in_or_app; left; exact Hin].
-    rewrite Hh in Hin. destruct Hin as [<-|Hin]; [right; apply in_or_app; right; left; reflexivity|].
-    left. destruct Hc as [->|[iv [off [_ [_ [_ Hp]]]]]]; [exact Hin|].
-    apply (Permutation_in _ (Permutation_sym Hp)). right. exact Hin.
-  - intros s0 acc q [Hi0 Hk]. split; [apply Inv_set_dq, Hi0 | exact Hk].
-  - intros s0 acc ev0 [Hi0 Hk] Hn. split; [exact Hi0|]. rewrite fired_app, (fired_noise _ Hn), app_nil_r. exact Hk.
-  - split; [exact Hi|]. intros x Hx. left. exact Hx.
+  intros H0 jit c Hc s acc e s1 z s2 ev r [Hi0 Hk] Hp G P.
+  destruct (fire_heap_inv _ _ _ _ _ _ _ _ _ Hc Hi0 Hp G P) as [rest [Hh [_ [_ [Hi2 [Hp2 [Hfd Hx]]]]]]].
+  split; [|exact Hp2]. split; [exact Hi2|]. intros x Hx0. rewrite fired_app, Hfd.
+  destruct (Hk x Hx0) as [Hin|Hin]; [|right; apply in_or_app; left; exact Hin].
+  rewrite Hh in Hin. destruct Hin as [<-|Hin]; [right; apply in_or_app; right; left; reflexivity|].
+  left. destruct Hx as [[-> _]|[iv [off [_ [_ [_ [_ Hperm]]]]]]]; [exact Hin|].
+  apply (Permutation_in _ (Permutation_sym Hperm)). right. exact Hin.
+Qed.
+
+Lemma Keep_dq : forall H0 s acc q, Keep H0 s acc -> Keep H0 (set_dq s q) acc.
+Proof. intros H0 s acc q [Hi0 Hk]. split; [apply Inv_set_dq, Hi0 | exact Hk]. Qed.
+Lemma Keep_noise : forall H0 s acc ev, Keep H0 s acc -> noise ev -> Keep H0 s (acc ++ ev).
+Proof. intros H0 s acc ev [Hi0 Hk] Hn. split; [exact Hi0|]. rewrite fired_app, (fired_noise _ Hn), app_nil_r. exact Hk. Qed.
+Lemma Keep_init : forall s, Inv s -> Keep (heap s) s [].
+Proof. intros s Hi. split; [exact Hi|]. intros x Hx. left. exact Hx. Qed.
+
+Lemma run_once_conserves : forall guard jit c s s' ev, passive_cfg c -> passive_dq s -> Inv s ->
+  run_once guard jit c s = (s', ev) -> forall x, In x (heap s) -> In x (heap s') \/ In x (fired ev).
+Proof.
+  intros guard jit c s s' ev Hc Hp Hi H.
+  exact (proj2 (proj1 (run_once_loop_P (Keep (heap s)) jit c (Keep_fire _ jit c Hc) (Keep_dq _) (Keep_noise _)
+                         guard _ s [] s' ev (Keep_init s Hi) Hp H))).
+Qed.
+
+Lemma run_conserves : forall guard jit c s s' ev, passive_cfg c -> passive_dq s -> Inv s ->
+  run guard jit c s = (s', ev) -> forall x, In x (heap s) -> In x (heap s') \/ In x (fired ev).
+Proof.
+  intros guard jit c s s' ev Hc Hp Hi H.
+  exact (proj2 (proj1 (run_loop_P (Keep (heap s)) jit c (Keep_fire _ jit c Hc) (Keep_dq _) (Keep_noise _)
+                         guard _ s [] s' ev (Keep_init s Hi) Hp H))).
 Qed.
 
 (* a raising callback: only that task has left the queue, what it deferred is queued *)
-Lemma process_task_raising : forall jit c s e, t_raises (cfg_get c (e_tid e)) = true ->
+Lemma process_task_raising : forall jit c s e, passive_cfg c -> t_raises (cfg_get c (e_tid e)) = true ->
   process_task jit c s e = (set_dq s (dq s ++ t_defers (cfg_get c (e_tid e))), [fire_of s e], true).
-Proof. intros jit c s e H. unfold process_task. rewrite H. reflexivity. Qed.
+Proof.
+  intros jit c s e Hc H. unfold process_task. rewrite (proj1 (Hc (e_tid e))). cbn [run_acts]. rewrite H.
+  reflexivity.
+Qed.
 
 (* ---------- T6/T8b: progress and termination of run_once (guarded code) ---------- *)
 Definition dcount (T : Z) (h : list entry) : nat := length (filter (fun e => e_when e <=? T) h).
@@ -161,18 +165,6 @@ Proof.
   destruct (filter (fun e => e_when e <=? T) h); [destruct Hi | cbn [length]; lia].
 Qed.
 
-Lemma do_drain_guarded : forall s, exists L, do_drain true s = (set_dq s [], calls L, false).
-Proof.
-  intros s. unfold do_drain. destruct (drain_all_guarded (dq s)) as [L [-> _]].
-  exists L. rewrite app_nil_r. reflexivity.
-Qed.
-
-Lemma not_in_calls : forall L, ~ In (EvErr OutOfFuel) (calls L).
-Proof.
-  intros L Hi. unfold calls in Hi. apply in_flat_map in Hi. destruct Hi as [d [_ [Hi|Hi]]]; [discriminate|].
-  destruct (d_raises d); [destruct Hi as [Hi|[]]; discriminate | destruct Hi].
-Qed.
-
 Lemma get_next_none_due : forall s s1 z, Inv s -> get_next_task s = (None, s1, z) -> due_count s = 0%nat.
 Proof.
   intros s s1 z [[Hso _ _ _] _] G. unfold get_next_task in G. rewrite due_count_eq.
@@ -180,108 +172,123 @@ Proof.
   destruct (e_when e <=? now s) eqn:E; [discriminate|]. apply dcount_sorted_zero; [exact Hso | lia].
 Qed.
 
-Lemma run_once_loop_progress : forall jit c, 0 <= jit -> forall fuel s s' ev, Inv s ->
+Lemma fire_events_nofuel : forall s1 e ev, (ev = [fire_of s1 e] \/ exists i, ev = [fire_of s1 e; EvInst i true]) ->
+  ~ In (EvErr OutOfFuel) ev.
+Proof. intros s1 e ev [->|[i ->]] Hin; cbn in Hin; repeat (destruct Hin as [Hin|Hin]; [discriminate|]); destruct Hin. Qed.
+
+Lemma run_once_loop_progress : forall jit c, passive_cfg c -> 0 <= jit -> forall fuel s s' ev, Inv s -> passive_dq s ->
   (due_count s < fuel)%nat -> run_once_loop true jit c fuel s = (s', ev) ->
-  ~ In (EvErr OutOfFuel) ev /\ now s' = now s /\ Inv s' /\
+  ~ In (EvErr OutOfFuel) ev /\ now s' = now s /\ Inv s' /\ passive_dq s' /\
   (due_count s' = 0%nat \/ (In EvRaise ev /\ (due_count s' < due_count s)%nat)).
 Proof.
-  intros jit c Hj. induction fuel as [|f IH]; intros s s' ev Hi Hf H; [lia|].
+  intros jit c Hc Hj. induction fuel as [|f IH]; intros s s' ev Hi Hp Hf H; [lia|].
   cbn [run_once_loop] in H.
   destruct (get_next_task s) as [[t s1] z] eqn:G. destruct t as [e|].
-  - destruct (process_task jit c s1 e) as [[s2 ev1] r1] eqn:P.
-    destruct (fire_heap_inv _ _ _ _ _ _ _ _ _ Hi G P) as [rest [Hh [Hd [-> [Hn [Hi2 Hc]]]]]].
+  - destruct (process_task jit c s1 e) as [[s2 ev1] r1] eqn:P. cbv beta iota zeta in H.
+    destruct (fire_heap_inv _ _ _ _ _ _ _ _ _ Hc Hi Hp G P) as [rest [Hh [Hd [Hn [Hi2 [Hp2 [_ Hx]]]]]]].
+    assert (Hev : ev1 = [fire_of s1 e] \/ exists i, ev1 = [fire_of s1 e; EvInst i true]).
+    { destruct Hx as [[_ ->]|[iv [off [_ [_ [_ [-> _]]]]]]]; [left; reflexivity | right; eexists; reflexivity]. }
     assert (Hs : due_count s = S (dcount (now s) rest)).
     { rewrite due_count_eq, Hh. unfold dcount. cbn [filter].
       destruct (e_when e <=? now s) eqn:E; [reflexivity | lia]. }
     assert (H2 : due_count s2 = dcount (now s) rest).
-    { rewrite due_count_eq, Hn. destruct Hc as [->|[iv [off [_ [Hiv [_ Hp]]]]]]; [reflexivity|].
-      rewrite (dcount_perm _ _ _ Hp). unfold dcount. cbn [filter e_when fst].
+    { rewrite due_count_eq, Hn. destruct Hx as [[-> _]|[iv [off [_ [Hiv [_ [_ Hperm]]]]]]]; [reflexivity|].
+      rewrite (dcount_perm _ _ _ Hperm). unfold dcount. cbn [filter e_when fst].
       pose proof (next_slot_after jit iv off (now s) Hiv Hj).
       destruct (next_slot jit iv off (now s) <=? now s) eqn:E; [lia | reflexivity]. }
     destruct r1.
-    + inversion H; subst. split; [|split; [exact Hn | split; [exact Hi2|]]].
-      * intros Hin. destruct Hin as [Hin|[Hin|[]]]; discriminate.
-      * right. split; [right; left; reflexivity | lia].
-    + destruct (do_drain_guarded s2) as [L HD]. rewrite HD in H.
+    + inversion H; subst. split; [|split; [exact Hn | split; [exact Hi2 | split; [exact Hp2|]]]].
+      * intros Hin. destruct Hin as [Hin|Hin]; [discriminate|]. apply in_app_or in Hin.
+        destruct Hin as [Hin|[Hin|[]]]; [exact (fire_events_nofuel _ _ _ Hev Hin) | discriminate].
+      * right. split; [right; apply in_or_app; right; left; reflexivity | lia].
+    + destruct (do_drain true jit c s2) as [[s3 ev2] r2] eqn:D.
+      destruct (do_drain_passive _ _ _ _ _ _ _ Hp2 D) as [q [-> [_ [_ Hg]]]].
+      destruct (Hg eq_refl) as [-> [-> Hnf2]].
       assert (Hi3 : Inv (set_dq s2 [])) by (apply Inv_set_dq, Hi2).
+      assert (Hp3 : passive_dq (set_dq s2 [])) by reflexivity.
       assert (H3 : due_count (set_dq s2 []) = dcount (now s) rest) by exact H2.
-      destruct (get_next_some _ _ _ _ G) as [rest' [Hh' [_ [_ Hz]]]].
+      destruct (get_next_some _ _ _ _ G) as [rest' [Hh' [_ [Hs1 Hz]]]].
       rewrite Hh in Hh'. inversion Hh'; subst rest'.
       destruct z.
-      * destruct (run_once_loop true jit c f (set_dq s2 [])) as [s4 ev3] eqn:R. inversion H; subst.
-        destruct (IH _ _ _ Hi3 ltac:(lia) R) as [Hnf [Hn4 [Hi4 Hp4]]].
-        split; [|split; [cbn [now set_dq] in Hn4; congruence | split; [exact Hi4|]]].
-        -- intros Hin. cbn [app] in Hin. destruct Hin as [Hin|Hin]; [discriminate|].
-           apply in_app_or in Hin. destruct Hin as [Hin|Hin]; [exact (not_in_calls _ Hin) | exact (Hnf Hin)].
-        -- destruct Hp4 as [Hz4|[Hr4 Hl4]]; [left; exact Hz4|].
-           right. split; [right; apply in_or_app; right; exact Hr4 | lia].
-      * inversion H; subst. split; [|split; [exact Hn | split; [exact Hi3|]]].
-        -- intros Hin. cbn [app] in Hin. destruct Hin as [Hin|Hin]; [discriminate | exact (not_in_calls _ Hin)].
+      * destruct (run_once_loop true jit c f (set_dq s2 [])) as [s4 ev3] eqn:R. inversion H; subst s' ev.
+        destruct (IH _ _ _ Hi3 Hp3 ltac:(lia) R) as [Hnf [Hn4 [Hi4 [Hp4 Hpr]]]].
+        split; [|split; [cbn [now set_dq] in Hn4; congruence | split; [exact Hi4 | split; [exact Hp4|]]]].
+        -- intros Hin. destruct Hin as [Hin|Hin]; [discriminate|]. apply in_app_or in Hin.
+           destruct Hin as [Hin|Hin]; [exact (fire_events_nofuel _ _ _ Hev Hin)|].
+           apply in_app_or in Hin. destruct Hin as [Hin|Hin]; [exact (Hnf2 Hin) | exact (Hnf Hin)].
+        -- destruct Hpr as [Hz4|[Hr4 Hl4]]; [left; exact Hz4|].
+           right. split; [right; apply in_or_app; right; apply in_or_app; right; exact Hr4 | lia].
+      * inversion H; subst s' ev. split; [|split; [exact Hn | split; [exact Hi3 | split; [exact Hp3|]]]].
+        -- intros Hin. destruct Hin as [Hin|Hin]; [discriminate|]. apply in_app_or in Hin.
+           destruct Hin as [Hin|Hin]; [exact (fire_events_nofuel _ _ _ Hev Hin) | exact (Hnf2 Hin)].
         -- left. rewrite H3. destruct rest as [|e' r']; [reflexivity|].
            destruct Hi as [[Hso _ _ _] _]. rewrite Hh in Hso. inversion Hso; subst.
            apply dcount_sorted_zero; [assumption | lia].
-  - pose proof (get_next_none_due _ _ _ Hi G) as Hz0.
+  - cbv beta iota zeta in H. pose proof (get_next_none_due _ _ _ Hi G) as Hz0.
     apply get_next_none in G. destruct G as [-> ->].
-    destruct (do_drain_guarded s) as [L HD]. rewrite HD in H. inversion H; subst.
-    split; [exact (not_in_calls L)|]. split; [reflexivity|]. split; [apply Inv_set_dq, Hi|]. left. exact Hz0.
+    destruct (do_drain true jit c s) as [[s3 ev2] r2] eqn:D.
+    destruct (do_drain_passive _ _ _ _ _ _ _ Hp D) as [q [-> [_ [_ Hg]]]].
+    destruct (Hg eq_refl) as [-> [-> Hnf2]]. inversion H; subst.
+    split; [exact Hnf2|]. split; [reflexivity|]. split; [apply Inv_set_dq, Hi|]. split; [reflexivity|]. left. exact Hz0.
 Qed.
 
-Lemma run_once_progress : forall jit c s s' ev, 0 <= jit -> Inv s -> run_once true jit c s = (s', ev) ->
-  ~ In (EvErr OutOfFuel) ev /\ now s' = now s /\ Inv s' /\
+Lemma run_once_progress : forall jit c s s' ev, passive_cfg c -> passive_dq s -> 0 <= jit -> Inv s ->
+  run_once true jit c s = (s', ev) ->
+  ~ In (EvErr OutOfFuel) ev /\ now s' = now s /\ Inv s' /\ passive_dq s' /\
   (due_count s' = 0%nat \/ (In EvRaise ev /\ (due_count s' < due_count s)%nat)).
 Proof.
-  intros jit c s s' ev Hj Hi H. eapply run_once_loop_progress; [exact Hj | exact Hi | | exact H]. lia.
+  intros jit c s s' ev Hc Hp Hj Hi H. eapply (run_once_loop_progress jit c Hc Hj); [exact Hi | exact Hp | | exact H]. lia.
 Qed.
 
 (* enough passes run everything that was due, whatever raised on the way *)
-Lemma passes_fire_all : forall jit c, 0 <= jit -> forall n s s' ev, Inv s -> (due_count s <= n)%nat ->
-  run_ops true jit c s (repeat RunOnce (S n)) = (s', ev) ->
+Lemma passes_fire_all : forall jit c, passive_cfg c -> 0 <= jit -> forall n s s' ev, Inv s -> passive_dq s ->
+  (due_count s <= n)%nat -> run_ops true jit c s (repeat RunOnce (S n)) = (s', ev) ->
   Inv s' /\ now s' = now s /\ due_count s' = 0%nat /\
   (forall x, In x (heap s) -> In x (heap s') \/ In x (fired ev)) /\ ~ In (EvErr OutOfFuel) ev.
 Proof.
-  intros jit c Hj. induction n as [|n IH]; intros s s' ev Hi Hn H.
+  intros jit c Hc Hj. induction n as [|n IH]; intros s s' ev Hi Hp Hn H.
   - cbn [repeat run_ops step] in H. destruct (run_once true jit c s) as [s1 ev1] eqn:R.
     inversion H; subst. rewrite app_nil_r.
-    destruct (run_once_progress _ _ _ _ _ Hj Hi R) as [Hnf [Hn1 [Hi1 Hp]]].
-    split; [exact Hi1|]. split; [exact Hn1|]. split; [destruct Hp as [Hp|[_ Hp]]; [exact Hp | lia]|].
-    split; [exact (run_once_conserves _ _ _ _ _ _ Hi R) | exact Hnf].
+    destruct (run_once_progress _ _ _ _ _ Hc Hp Hj Hi R) as [Hnf [Hn1 [Hi1 [_ Hpr]]]].
+    split; [exact Hi1|]. split; [exact Hn1|]. split; [destruct Hpr as [Hpr|[_ Hpr]]; [exact Hpr | lia]|].
+    split; [exact (run_once_conserves _ _ _ _ _ _ Hc Hp Hi R) | exact Hnf].
   - change (repeat RunOnce (S (S n))) with (RunOnce :: repeat RunOnce (S n)) in H.
     cbn [run_ops step] in H. destruct (run_once true jit c s) as [s1 ev1] eqn:R.
     destruct (run_ops true jit c s1 (repeat RunOnce (S n))) as [s2 ev2] eqn:R2. inversion H; subst.
-    destruct (run_once_progress _ _ _ _ _ Hj Hi R) as [Hnf [Hn1 [Hi1 Hp]]].
-    assert (Hle : (due_count s1 <= n)%nat) by (destruct Hp as [Hp|[_ Hp]]; lia).
-    destruct (IH _ _ _ Hi1 Hle R2) as [Hi2 [Hn2 [Hz [Hk Hnf2]]]].
+    destruct (run_once_progress _ _ _ _ _ Hc Hp Hj Hi R) as [Hnf [Hn1 [Hi1 [Hp1 Hpr]]]].
+    assert (Hle : (due_count s1 <= n)%nat) by (destruct Hpr as [Hpr|[_ Hpr]]; lia).
+    destruct (IH _ _ _ Hi1 Hp1 Hle R2) as [Hi2 [Hn2 [Hz [Hk Hnf2]]]].
     split; [exact Hi2|]. split; [congruence|]. split; [exact Hz|]. split.
     + intros x Hx. rewrite fired_app.
-      destruct (run_once_conserves _ _ _ _ _ _ Hi R x Hx) as [Hx1|Hx1]; [|right; apply in_or_app; left; exact Hx1].
+      destruct (run_once_conserves _ _ _ _ _ _ Hc Hp Hi R x Hx) as [Hx1|Hx1]; [|right; apply in_or_app; left; exact Hx1].
       destruct (Hk x Hx1) as [Hx2|Hx2]; [left; exact Hx2 | right; apply in_or_app; right; exact Hx2].
     + intros Hin. apply in_app_or in Hin. destruct Hin; [apply Hnf | apply Hnf2]; assumption.
 Qed.
 
-Lemma due_tasks_fire_despite_raises : forall jit c s s' ev, 0 <= jit -> Inv s ->
+Lemma due_tasks_fire_despite_raises : forall jit c s s' ev, passive_cfg c -> passive_dq s -> 0 <= jit -> Inv s ->
   run_ops true jit c s (repeat RunOnce (S (due_count s))) = (s', ev) ->
   forall x, In x (heap s) -> e_when x <= now s -> In x (fired ev).
 Proof.
-  intros jit c s s' ev Hj Hi H x Hx Hd.
-  destruct (passes_fire_all jit c Hj _ _ _ _ Hi (le_n _) H) as [_ [Hn [Hz [Hk _]]]].
+  intros jit c s s' ev Hc Hp Hj Hi H x Hx Hd.
+  destruct (passes_fire_all jit c Hc Hj _ _ _ _ Hi Hp (le_n _) H) as [_ [Hn [Hz [Hk _]]]].
   destruct (Hk x Hx) as [Hin|Hin]; [|exact Hin].
   exfalso. rewrite due_count_eq in Hz. pose proof (dcount_in (now s') _ _ Hin ltac:(lia)). lia.
 Qed.
 
-(* firing a recurring task that does not raise queues its next slot *)
-Lemma recurring_requeued : forall jit c s e s1 z s2 ev r iv off, Inv s ->
+(* firing a recurring task that neither raises nor fails queues its next slot (any program) *)
+Lemma recurring_requeued : forall jit c s e s1 z s2 ev r iv off, passive_cfg c -> Inv s -> passive_dq s ->
   get_next_task s = (Some e, s1, z) -> process_task jit c s1 e = (s2, ev, r) ->
   t_kind (cfg_get c (e_tid e)) = Recurring iv off -> t_raises (cfg_get c (e_tid e)) = false -> 0 < iv ->
   r = false /\ In (next_slot jit iv off (now s), ctr s, e_tid e) (heap s2).
 Proof.
-  intros jit c s e s1 z s2 ev r iv off Hi G P K Hr Hiv.
-  destruct (get_next_some _ _ _ _ G) as [rest [Hh [Hd [Hs1 _]]]]. subst s1.
-  unfold process_task in P. rewrite Hr, K in P. unfold rec_install in P.
-  destruct (iv <=? 0) eqn:E; [lia|].
-  match type of P with context [tm_install ?a ?b] => destruct (tm_install a b) as [s3|err] eqn:T end.
-  - inversion P; subst s2 ev r. split; [reflexivity|].
-    destruct (tm_install_heap _ _ _ T) as [t [h1 [Ht [_ [Hp _]]]]].
-    cbn [ttime set_ttime set_dq ctr now] in Ht, Hp. rewrite upd_same in Ht. inversion Ht; subst t.
-    apply (Permutation_in _ (Permutation_sym Hp)). left. reflexivity.
-  - exfalso. unfold tm_install in T. cbn [ttime set_ttime] in T. rewrite upd_same in T. discriminate.
+  intros jit c s e s1 z s2 ev r iv off Hc Hi Hp G P K Hr Hiv.
+  destruct (fire_heap_inv _ _ _ _ _ _ _ _ _ Hc Hi Hp G P) as [rest [Hh [_ [_ [_ [_ [_ Hx]]]]]]].
+  destruct Hx as [[Hrest Hev]|[iv' [off' [K' [_ [-> [_ Hperm]]]]]]].
+  - exfalso. unfold process_task in P. rewrite (proj1 (Hc (e_tid e))) in P. cbn [run_acts] in P.
+    rewrite Hr, K in P. cbn [orb] in P. unfold rec_install in P. destruct (iv <=? 0) eqn:E; [lia|].
+    match type of P with context [tm_install ?a ?b] => destruct (tm_install a b) as [s3|err] eqn:T end.
+    + inversion P; subst. discriminate.
+    + unfold tm_install in T. cbn [ttime set_ttime] in T. rewrite upd_same in T. discriminate.
+  - rewrite K in K'. inversion K'; subst iv' off'. split; [reflexivity|].
+    apply (Permutation_in _ (Permutation_sym Hperm)). left. reflexivity.
 Qed.
